@@ -1,7 +1,7 @@
 import TypstyleModel.Model.Printer.Math
 /-! The dispatch of `convert_expr_impl` / `convert_pattern` and the fuel knot. -/
 namespace Typstyle
-open Pretty
+open Twin
 
 /-- A constant printed for a whole node: the node's text must be exactly that constant. -/
 def Env.synNode (e : Env) (n : ANode) (s : String) : M Doc :=
@@ -84,16 +84,24 @@ def knot (e : Env) : Nat → Rec
 /-- Attributes, then node numbers. -/
 def prepare (root : Node) : ANode := (number (annotate false root) 0).1
 
-/-- Stages 2+3 of the pipeline: attributes, then `convert_markup` of the root. Returns the
-document and the number of entries into the four conversion entry points. -/
-def printDoc (e : Env) (root : Node) : Except Reject (Doc × Nat) :=
+/-- Stages 2+3 of the pipeline for all indent units at once: attributes, then `convert_markup`
+of the root. Returns the document family and the number of entries into the four conversion entry points. -/
+def printTwin (e : Env) (root : Node) : Except Reject (Twin.Doc × Nat) :=
   let t := prepare root
   match ((knot e (2 * t.depth + 2)).markup {} t .document).run { limit := t.size } with
   | .ok (d, s) => .ok (d, s.calls)
   | .error r => .error r
 
+/-- Stages 2+3 at a given configuration: the member of the family at `cfg.tab`. -/
+def printDoc (cfg : Config) (wd : String → Nat) (root : Node) : Except Reject (Pretty.Doc × Nat) :=
+  match printTwin { cfg := cfg.toP, wd := wd } root with
+  | .ok (d, calls) => .ok (d.fam cfg.tab, calls)
+  | .error r => .error r
+
 /-- `Typstyle::format_source` after the error check. -/
-def format (e : Env) (root : Node) : Except Reject String :=
-  (printDoc e root).map fun r => strip (pretty e.cfg.maxWidth r.1)
+def format (cfg : Config) (wd : String → Nat) (root : Node) : Except Reject String :=
+  match printDoc cfg wd root with
+  | .ok r => .ok (strip (Pretty.pretty cfg.maxWidth r.1))
+  | .error r => .error r
 
 end Typstyle
